@@ -10,7 +10,8 @@ pat = sys.argv[5] if len(sys.argv) > 5 else None
 u = [u for u in U.UNITS if u.name == uname][0]
 prog, spec, ex = u.build()
 ex.debug_mods = bool(os.environ.get('DBGMODS'))
-d = '/verif/.work/dbg'; shutil.rmtree(d, ignore_errors=True); os.makedirs(d)
+d = f'/verif/.work/dbg{os.getpid()}'; os.makedirs(d)
+import atexit; atexit.register(lambda: shutil.rmtree(d, ignore_errors=True))
 obs = []
 for l in u.lemmas:
     for o, t in E.lemma_obligations(ex, l): obs.append((o, t))
